@@ -95,11 +95,26 @@ def _eval_chunk(recs):
 
 
 def _warm(_):
-    rec = {"T": [[1, 2, 1], [2, 1, 1], [2, 2, 1]], "names": ["Total<SEP>energy", "Total<SEP>latency", "Total<SEP>x"],
-           "cls": ["obj", "obj", "obj"], "tol": {"on": 0, "od": 1, "rn": 0, "rd": 1, "an": 0, "ad": 1, "rs": 1},
-           "const": {"front": False, "cols": []}}
-    rec3 = dict(rec, T=[[1, 2, 3], [2, 1, 3], [3, 2, 1], [3, 3, 3]])
-    return [_kept(r, p, False) for p in PATHS for r in (rec, rec3)]
+    """Import accelforge and make numba compile every signature the replay will use (objective-only, with
+    fused-loop columns, both dtypes, with and without rounding); forked workers inherit the compiled code."""
+    E, L, G0 = "Total<SEP>energy", "Total<SEP>latency", "reservation<SEP>GlobalBuffer<SEP>0<SEP>left"
+    F1, F2 = "fused_loop<SEP>Matmul0<SEP>stride<SEP>n1<SEP>0", "fused_loop<SEP>Matmul1<SEP>initial<SEP>m<SEP>1"
+    zero = {"on": 0, "od": 1, "rn": 0, "rd": 1, "an": 0, "ad": 1, "rs": 1}
+    some = {"on": 1, "od": 4, "rn": 1, "rd": 2, "an": 1, "ad": 1, "rs": 16}
+    const = {"front": False, "cols": [{"name": "Total<SEP>leak_energy", "cls": "obj", "v": 0}]}
+    shapes = [([E, L], ["obj", "obj"], [[1, 2], [2, 1], [2, 2]]),
+              ([E, L, G0], ["obj", "obj", "res"], [[1, 2, 3], [2, 1, 3], [3, 2, 1], [3, 3, 3]]),
+              ([E, G0, F1], ["obj", "res", "diff"], [[1, 2, 1], [2, 1, 1], [2, 2, 1], [1, 1, 2], [2, 2, 2]]),
+              ([E, L, G0, F1, F2], ["obj", "obj", "res", "diff", "diff"],
+               [[1, 2, 3, 1, 1], [2, 1, 3, 1, 1], [3, 2, 1, 1, 1], [3, 3, 3, 1, 1], [1, 2, 2, 2, 1], [2, 1, 4, 2, 1],
+                [1, 3, 5, 2, 1], [2, 2, 2, 2, 2]]),
+              (["Matmul0<SEP>mapping", E, F1], ["other", "obj", "diff"], [[1, 1, 1], [2, 2, 1], [3, 1, 2]])]
+    out = []
+    for names, cls, T in shapes:
+        for tol in (zero, some):
+            rec = {"T": T, "names": names, "cls": cls, "tol": tol, "const": const}
+            out += [_kept(rec, p, c) for p in PATHS for c in (False, True)]
+    return out
 
 
 # ----------------------------------------------------------------------------- comparing
@@ -250,22 +265,32 @@ def run(ck: Check):
     _warm(0)             # import accelforge and JIT-compile once; the forked workers inherit the compiled code
     timings["warmup"] = round(time.time() - t0, 1)
     pending = []
-    with ProcessPoolExecutor(NPROC, mp_context=multiprocessing.get_context("fork")) as pool:
-        for cfg, seed, depth in plan:
-            t0 = time.time()
-            kw = {"workers": 8}
-            if seed is not None:
-                kw = {"seed": seed, "workers": 1, "simulate": "num=1", "depth": depth}
-            res = ck.tlc("MC_ParetoTable", cfg, timeout=3000, coverage=False, **kw)
-            if not res.ok:
-                raise Machinery("generator %s failed: %s\n%s" % (cfg, res.violated, res.tail))
-            if not res.records:
-                raise Machinery("generator %s printed no cases" % cfg)
-            t1 = time.time()
+    warmed = set()
+    for cfg, seed, depth in plan:
+        t0 = time.time()
+        kw = {"workers": 8}
+        if seed is not None:
+            kw = {"seed": seed, "workers": 1, "simulate": "num=1", "depth": depth}
+        res = ck.tlc("MC_ParetoTable", cfg, timeout=3000, coverage=False, **kw)
+        if not res.ok:
+            raise Machinery("generator %s failed: %s\n%s" % (cfg, res.violated, res.tail))
+        if not res.records:
+            raise Machinery("generator %s printed no cases" % cfg)
+        t1 = time.time()
+        # numba compiles one variant per dtype/layout: let the parent meet one record of every
+        # (schema, tolerance) first, then fork the workers (they inherit the compiled code)
+        first = []
+        for r in res.records:
+            if (r["sid"], r["ti"]) not in warmed:
+                warmed.add((r["sid"], r["ti"]))
+                first.append(r)
+        _eval_chunk(first)
+        t2 = time.time()
+        with ProcessPoolExecutor(NPROC, mp_context=multiprocessing.get_context("fork")) as pool:
             _process(ck, pool, res.records, cfg, stats, pending)
-            timings[cfg + ("" if seed is None else "@%d" % seed)] = {
-                "records": len(res.records), "tlc_generate_s": round(t1 - t0, 1),
-                "replay_s": round(time.time() - t1, 1)}
+        timings[cfg + ("" if seed is None else "@%d" % seed)] = {
+            "records": len(res.records), "tlc_generate_s": round(t1 - t0, 1),
+            "compile_s": round(t2 - t1, 1), "replay_s": round(time.time() - t2, 1)}
     if not pending:
         raise Machinery("no case reached Trace_ParetoTable")
     t0 = time.time()
